@@ -66,10 +66,34 @@ Print Assumptions C14_exact_or_close.
 
 Theorem C14_exact_when_no_break : forall l alpha,
   is_dist l -> 0 < alpha -> alpha <= 1 -> isclose alpha 1 = false ->
-  (forall k, let G := total_mass (firstn k (sort_by_value l)) in G < alpha -> atol + rtol * alpha < alpha - G) ->
+  (forall k, (1 <= k)%nat ->
+             let G := total_mass (firstn k (sort_by_value l)) in G < alpha -> atol + rtol * alpha < alpha - G) ->
   exists r, get_expectation l alpha = Ok r /\ r == cvar l alpha.
 Proof. exact exact_when_no_break. Qed.
 Print Assumptions C14_exact_when_no_break.
+
+(* a tail fraction no larger than any single probability: the result is exactly the smallest value *)
+Theorem C14_exact_below_smallest_probability : forall (l : list entry) alpha,
+  is_dist l -> 0 < alpha -> alpha <= 1 -> isclose alpha 1 = false -> Forall (fun e => alpha <= fst e) l ->
+  exists r, get_expectation l alpha = Ok r /\ r == cvar l alpha /\
+            (forall e, In e l -> r <= snd e) /\ (exists e, In e l /\ r == snd e).
+Proof. exact exact_below_smallest_probability. Qed.
+Print Assumptions C14_exact_below_smallest_probability.
+
+Theorem C14_exact_below_smallest_probability_paths : forall n d op alpha,
+  states_fit n d -> is_dist (entries op d) -> 0 < alpha -> alpha <= 1 -> isclose alpha 1 = false ->
+  Forall (fun e => alpha <= fst e) (entries op d) ->
+  exists r, expectation_with_operator d op alpha = Ok r /\ expectation_with_bitstring n d n op alpha = Ok r /\
+            r == cvar (entries op d) alpha /\
+            (forall e, In e (entries op d) -> r <= snd e) /\ (exists e, In e (entries op d) /\ r == snd e).
+Proof. exact exact_below_smallest_probability_paths. Qed.
+Print Assumptions C14_exact_below_smallest_probability_paths.
+
+(* below atol the resolution bound of C14_exact_or_close exceeds the value scale: only the exact clause speaks there *)
+Theorem C14_resolution_bound_vacuous_below_atol : forall alpha V,
+  0 < alpha -> alpha <= atol -> 0 <= V -> V <= (rtol + atol / alpha) * V.
+Proof. exact resolution_bound_vacuous_below_atol. Qed.
+Print Assumptions C14_resolution_bound_vacuous_below_atol.
 
 (* ---- alpha = 1 *)
 Theorem C14_alpha_one_operator : forall d op,
@@ -173,6 +197,13 @@ Example C14_example_exact_when_no_break :
             r == cvar [(1 # 4, 3); (1 # 4, 1); (1 # 2, 2)] (1 # 2).
 Proof. exact exact_when_no_break_example. Qed.
 Print Assumptions C14_example_exact_when_no_break.
+
+Example C14_example_tiny_alpha :
+  exists r, get_expectation [(1 # 4, 3); (1 # 4, - (2)); (1 # 2, 1)] (1 # 1000000000000) = Ok r /\ r == - (2) /\
+            r == cvar [(1 # 4, 3); (1 # 4, - (2)); (1 # 2, 1)] (1 # 1000000000000) /\
+            (forall e, In e [(1 # 4, 3); (1 # 4, - (2)); (1 # 2, 1)] -> r <= snd e).
+Proof. exact tiny_alpha_example. Qed.
+Print Assumptions C14_example_tiny_alpha.
 
 Example C14_example_isclose : isclose (999999 # 1000000) 1 = true /\ isclose (1 # 2) 1 = false.
 Proof. exact near_one_example. Qed.
